@@ -58,11 +58,11 @@ Qed.
 (* every connection of a reachable state is [mk] of a mode *)
 Lemma reachable_mk : forall s c k, reachable s -> nth_error (e_conns s) c = Some k ->
   exists m p peer b a, k = mk m p peer b a /\
-    (b = true -> e_loop s = EBatch /\ m_inb_ok m = true) /\ (m = M7 -> e_loop s = EBatch).
+    (b = true -> e_loop s = EBatch /\ m_inb_ok m = true).
 Proof.
   intros s c k [tr Hrun] Hn. pose proof (run_cinv tr s c k Hrun Hn) as Hc.
-  inversion Hc as [m pend peer inb ans Hinb H7 Hnf Hnd Hk].
-  exists m, pend, peer, inb, ans. split; [reflexivity|]. split; assumption.
+  inversion Hc as [m pend peer inb ans Hinb Hnf Hnd Hk].
+  exists m, pend, peer, inb, ans. split; [reflexivity|]. assumption.
 Qed.
 
 (* ------------------------------------------------------------------------------------------ *)
@@ -111,7 +111,7 @@ Qed.
 Definition target (l : elabel) : option nat :=
   match l with
   | LClientSend c | LClientClose c | LEvent c _ | LFree c | LJobStart c | LRearm c | LDel c | LStreamDrop c
-  | LClosedStore c => Some c
+  | LClosedStore c | LGrave c => Some c
   | LAccept _ | LWait _ | LBatchEnd => None
   end.
 
@@ -132,7 +132,7 @@ Definition mstep (l : elabel) (m : mode) (p : nat) (peer b : bool) (a : nat)
         match m, o with
         | M1, ODispatched => Some (M2, p, peer, false, a)
         | M2, OBusy | M3, OBusy | M4, OBusy | M5, OBusy => Some (m, p, peer, false, a)
-        | M6, OStale => Some (M7, p, peer, false, a)
+        | M6, OStale | M7, OStale => Some (m, p, peer, false, a)
         | _, _ => None
         end
       else None
@@ -145,6 +145,7 @@ Definition mstep (l : elabel) (m : mode) (p : nat) (peer b : bool) (a : nat)
   | LDel _ => match m with M3 => Some (M4, p, peer, b, a) | _ => None end
   | LStreamDrop _ => match m with M4 => Some (M5, p, peer, b, a) | _ => None end
   | LClosedStore _ => match m with M5 => Some (M6, p, peer, b, a) | _ => None end
+  | LGrave _ => match m with M6 => Some (M7, p, peer, b, a) | _ => None end
   | LAccept _ | LWait _ | LBatchEnd => None
   end.
 
@@ -153,7 +154,7 @@ Ltac mk_done := do 5 eexists; split; reflexivity.
 Lemma step_conn : forall s l c s', reachable s -> target l = Some c -> step s l = Some s' ->
   exists m p peer b a m' p' peer' b' a',
     nth_error (e_conns s) c = Some (mk m p peer b a) /\
-    (b = true -> e_loop s = EBatch /\ m_inb_ok m = true) /\ (m = M7 -> e_loop s = EBatch) /\
+    (b = true -> e_loop s = EBatch /\ m_inb_ok m = true) /\
     loop_ok (e_loop s) l = true /\
     mstep l m p peer b a = Some (m', p', peer', b', a') /\
     s' = {| e_conns := set_nth (e_conns s) c (mk m' p' peer' b' a'); e_loop := e_loop s |}.
@@ -163,9 +164,10 @@ Proof.
             forall m p peer b a k', (b = true -> m_inb_ok m = true) -> f (mk m p peer b a) = Some k' ->
               exists m' p' peer' b' a',
                 mstep l m p peer b a = Some (m', p', peer', b', a') /\ k' = mk m' p' peer' b' a').
-  { destruct l as [ok|c0|c0|batch|c0 o|c0| |c0|c0|c0|c0|c0]; cbn [target] in Ht; try discriminate Ht;
+  { destruct l as [ok|c0|c0|batch|c0 o|c0| |c0|c0|c0|c0|c0|c0]; cbn [target] in Ht; try discriminate Ht;
       inversion Ht; subst c0; clear Ht; unfold step in Hstep;
       try (destruct (e_loop s) eqn:Hloop; [discriminate Hstep|]);
+      try (destruct (forallb (fun k => negb (k_in_batch k)) (e_conns s)) eqn:Hall; [cbn [negb] in Hstep|discriminate Hstep]);
       (eexists; split; [reflexivity|]; split; [exact Hstep|]);
       intros m p peer b a k' Hinb Hf.
     - (* LClientSend *)
@@ -189,14 +191,16 @@ Proof.
     - (* LStreamDrop *)
       destruct m; cbn in Hf; try discriminate Hf. inversion Hf. mk_done.
     - (* LClosedStore *)
+      destruct m; cbn in Hf; try discriminate Hf. inversion Hf. mk_done.
+    - (* LGrave *)
       destruct m; cbn in Hf; try discriminate Hf. inversion Hf. mk_done. }
   destruct Hgen as [f [Hlk [Hw Hchar]]].
   apply with_conn_inv in Hw. destruct Hw as [k [k' [Hn [Hf Hs']]]].
-  destruct (reachable_mk s c k Hreach Hn) as [m [p [peer [b [a [Hk [Hinb H7]]]]]]]. subst k.
+  destruct (reachable_mk s c k Hreach Hn) as [m [p [peer [b [a [Hk Hinb]]]]]]. subst k.
   assert (Hinb' : b = true -> m_inb_ok m = true) by (intro Hb; apply (Hinb Hb)).
   destruct (Hchar m p peer b a k' Hinb' Hf) as [m' [p' [peer' [b' [a' [Hm Hk']]]]]]. subst k'.
   exists m, p, peer, b, a, m', p', peer', b', a'.
-  split; [exact Hn|]. split; [exact Hinb|]. split; [exact H7|]. split; [exact Hlk|]. split; [exact Hm|exact Hs'].
+  split; [exact Hn|]. split; [exact Hinb|]. split; [exact Hlk|]. split; [exact Hm|exact Hs'].
 Qed.
 
 Lemma step_accept : forall s ok s', step s (LAccept ok) = Some s' ->
@@ -206,7 +210,7 @@ Proof. intros s ok s' Hstep. cbn [step] in Hstep. inversion Hstep. reflexivity. 
 Definition set_inb (k : conn) : conn :=
   {| k_rec := k_rec k; k_stream := k_stream k; k_registered := k_registered k; k_in_flight := k_in_flight k;
      k_closed := k_closed k; k_pending := k_pending k; k_peer_closed := k_peer_closed k; k_jobs := k_jobs k;
-     k_in_batch := true; k_stale := k_stale k; k_answered := k_answered k; k_taken := k_taken k |}.
+     k_in_batch := true; k_grave := k_grave k; k_answered := k_answered k; k_taken := k_taken k |}.
 
 Lemma step_wait : forall s cs s', step s (LWait cs) = Some s' ->
   e_loop s = EWaiting /\ e_loop s' = EBatch /\
@@ -231,7 +235,7 @@ Qed.
 
 Lemma step_batchend : forall s s', step s LBatchEnd = Some s' ->
   e_loop s = EBatch /\ s' = {| e_conns := e_conns s; e_loop := EWaiting |} /\
-  forall c k, nth_error (e_conns s) c = Some k -> k_in_batch k = false /\ k_stale k = false.
+  forall c k, nth_error (e_conns s) c = Some k -> k_in_batch k = false.
 Proof.
   intros s s' Hstep. unfold step in Hstep.
   destruct (e_loop s) eqn:Hloop; [discriminate Hstep|].
@@ -239,9 +243,8 @@ Proof.
   inversion Hstep; subst s'; clear Hstep.
   split; [reflexivity|]. split; [reflexivity|].
   intros c k Hn. apply nth_error_In in Hn.
-  pose proof (proj1 (forallb_forall _ _) Hcond k Hn) as Hk. cbn beta in Hk.
-  apply andb_true_iff in Hk. destruct Hk as [Hb Hs].
-  apply negb_true_iff in Hb. apply negb_true_iff in Hs. split; assumption.
+  pose proof (proj1 (forallb_forall _ _) Hcond k Hn) as Hb. cbn beta in Hb.
+  apply negb_true_iff in Hb. exact Hb.
 Qed.
 
 Definition outcome_of (k : conn) : outcome :=
@@ -291,12 +294,13 @@ Lemma mstep_inb : forall l c m p peer b a m' p' peer' b' a',
   bn b' + bn (isevent c l) = bn b.
 Proof.
   intros l c m p peer b a m' p' peer' b' a' Ht Hm.
-  destruct l as [ok|c0|c0|batch|c0 o|c0| |c0|c0|c0|c0|c0]; cbn [target] in Ht; try discriminate Ht;
+  destruct l as [ok|c0|c0|batch|c0 o|c0| |c0|c0|c0|c0|c0|c0]; cbn [target] in Ht; try discriminate Ht;
     inversion Ht; subst c0; clear Ht; cbn [mstep isevent] in *.
   - destruct peer; [discriminate Hm|]. inversion Hm; subst. cbn [bn]. lia.
   - inversion Hm; subst. cbn [bn]. lia.
   - rewrite Nat.eqb_refl. destruct b; [|discriminate Hm].
     destruct m; destruct o; try discriminate Hm; inversion Hm; reflexivity.
+  - destruct m; try discriminate Hm. inversion Hm; subst. cbn [bn]. lia.
   - destruct m; try discriminate Hm. inversion Hm; subst. cbn [bn]. lia.
   - destruct m; try discriminate Hm. inversion Hm; subst. cbn [bn]. lia.
   - destruct m; try discriminate Hm. inversion Hm; subst. cbn [bn]. lia.
@@ -327,7 +331,7 @@ Proof.
   intros s l s' Hreach Hl Hstep Hnb.
   destruct (target l) as [c0|] eqn:Ht.
   - destruct (step_conn s l c0 s' Hreach Ht Hstep)
-      as (m & p & peer & b & a & m' & p' & peer' & b' & a' & Hn & _ & _ & _ & Hm & Hs').
+      as (m & p & peer & b & a & m' & p' & peer' & b' & a' & Hn & _ & _ & Hm & Hs').
     subst s'. split; [exact Hl|]. intros c. unfold inb.
     destruct (Nat.eq_dec c c0) as [Heq|Hne].
     + subst c. cbn [e_conns]. rewrite (nth_error_set_nth_eq _ _ _ _ Hn), Hn. cbn [mk k_in_batch].
@@ -336,7 +340,7 @@ Proof.
       destruct (isevent c l) eqn:He.
       * apply isevent_target in He. rewrite Ht in He. inversion He. exfalso. apply Hne. symmetry. assumption.
       * cbn [bn]. lia.
-  - destruct l as [ok|c0|c0|batch|c0 o|c0| |c0|c0|c0|c0|c0]; try discriminate Ht.
+  - destruct l as [ok|c0|c0|batch|c0 o|c0| |c0|c0|c0|c0|c0|c0]; try discriminate Ht.
     + apply step_accept in Hstep. subst s'. split; [exact Hl|]. intros c. unfold inb. cbn [e_conns isevent bn].
       rewrite nth_error_snoc_new. destruct (nth_error (e_conns s) c) as [k|]; [lia|].
       destruct (Nat.eqb c (length (e_conns s))); reflexivity.
@@ -360,7 +364,7 @@ Qed.
 Lemma waiting_inb0 : forall s c, reachable s -> e_loop s = EWaiting -> inb s c = 0.
 Proof.
   intros s c Hreach Hl. unfold inb. destruct (nth_error (e_conns s) c) as [k|] eqn:Hn; [|reflexivity].
-  destruct (reachable_mk s c k Hreach Hn) as [m [p [peer [b [a [Hk [Hinb _]]]]]]]. subst k. cbn [mk k_in_batch].
+  destruct (reachable_mk s c k Hreach Hn) as [m [p [peer [b [a [Hk Hinb]]]]]]. subst k. cbn [mk k_in_batch].
   destruct b; [|reflexivity]. destruct (Hinb eq_refl) as [Hx _]. rewrite Hl in Hx. discriminate Hx.
 Qed.
 
@@ -386,7 +390,7 @@ Proof.
   intros c. specialize (Hcount c).
   assert (H3 : inb s3 c = 0).
   { unfold inb. destruct (nth_error (e_conns s3) c) as [k|] eqn:Hn; [|reflexivity].
-    destruct (Hclean c k Hn) as [Hb _]. rewrite Hb. reflexivity. }
+    rewrite (Hclean c k Hn). reflexivity. }
   assert (H2 : inb s2 c = bn (existsb (Nat.eqb c) cs)).
   { pose proof (waiting_inb0 s1 c Hreach1 Hl1) as H1. unfold inb in *. rewrite Hnth.
     destruct (nth_error (e_conns s1) c) as [k|] eqn:Hn.
@@ -460,11 +464,12 @@ Lemma mstep_idle : forall l c m p peer b a m' p' peer' b' a',
   mstep l m p peer b a = Some (m', p', peer', b', a') -> m' = m.
 Proof.
   intros l c m p peer b a m' p' peer' b' a' Ht Hne Hfl Hm.
-  destruct l as [ok|c0|c0|batch|c0 o|c0| |c0|c0|c0|c0|c0]; cbn [target] in Ht; try discriminate Ht;
+  destruct l as [ok|c0|c0|batch|c0 o|c0| |c0|c0|c0|c0|c0|c0]; cbn [target] in Ht; try discriminate Ht;
     inversion Ht; subst c0; clear Ht; cbn [mstep isevent] in *.
   - destruct peer; [discriminate Hm|]. inversion Hm. reflexivity.
   - inversion Hm. reflexivity.
   - rewrite Nat.eqb_refl in Hne. discriminate Hne.
+  - destruct m; try discriminate Hm; discriminate Hfl.
   - destruct m; try discriminate Hm; discriminate Hfl.
   - destruct m; try discriminate Hm; discriminate Hfl.
   - destruct m; try discriminate Hm; discriminate Hfl.
@@ -483,14 +488,14 @@ Proof.
   intros s l s' c k Hreach Hstep Hn [Hfl Hcl] Hne.
   destruct (target l) as [c0|] eqn:Ht.
   - destruct (step_conn s l c0 s' Hreach Ht Hstep)
-      as (m & p & peer & b & a & m' & p' & peer' & b' & a' & Hn0 & _ & _ & _ & Hm & Hs').
+      as (m & p & peer & b & a & m' & p' & peer' & b' & a' & Hn0 & _ & _ & Hm & Hs').
     subst s'. destruct (Nat.eq_dec c c0) as [Heq|Hneq].
     + subst c0. rewrite Hn in Hn0. inversion Hn0; subst k; clear Hn0. cbn [mk k_in_flight k_closed] in Hfl, Hcl.
       assert (Hmm : m' = m) by (eapply mstep_idle; eassumption). subst m'.
       exists (mk m p' peer' b' a'). split; [cbn [e_conns]; eapply nth_error_set_nth_eq; exact Hn|].
       split; assumption.
     + exists k. split; [rewrite (target_other l c0 c Ht Hneq); exact Hn | split; assumption].
-  - destruct l as [ok|c0|c0|batch|c0 o|c0| |c0|c0|c0|c0|c0]; try discriminate Ht.
+  - destruct l as [ok|c0|c0|batch|c0 o|c0| |c0|c0|c0|c0|c0|c0]; try discriminate Ht.
     + apply step_accept in Hstep. subst s'. exists k. split; [|split; assumption].
       cbn [e_conns]. rewrite nth_error_snoc_new, Hn. reflexivity.
     + apply step_wait in Hstep. destruct Hstep as [_ [_ [_ Hnth]]]. rewrite Hnth, Hn.
@@ -541,7 +546,7 @@ Proof.
   rewrite run_app_gen, Hrm in Hrun'. apply run_cons in Hrun'. destruct Hrun' as [sm' [Hev _]].
   assert (Hreachm : reachable sm) by (eexists; exact Hrm).
   destruct (step_conn sm (LEvent c ODispatched) c sm' Hreachm eq_refl Hev)
-    as (m & p & peer & b & a & m' & p' & peer' & b' & a' & Hn0 & _ & _ & _ & Hm & Hs').
+    as (m & p & peer & b & a & m' & p' & peer' & b' & a' & Hn0 & _ & _ & Hm & Hs').
   exists pre, post, sm', (mk m' p' peer' b' a').
   split; [exact Htr|]. split; [exact Hpre|]. split; [exact Hpost|].
   split.
@@ -593,23 +598,14 @@ Qed.
 Definition is_loop_label (l : elabel) : bool :=
   match l with LEvent _ _ | LFree _ | LBatchEnd => true | _ => false end.
 
-(* inside a batch the loop never blocks: it can look at a pending event, else free a stale record, else end
-   the batch.  (Holds in every state, reachable or not.) *)
+(* inside a batch the loop never blocks: it can look at a pending event, else end the batch (emptying the graveyard
+   first is possible - Proofs/EpollReclaim.v - but not needed to go on).  (Holds in every state, reachable or not.) *)
 Theorem loop_never_blocks : forall s, e_loop s = EBatch ->
   exists l s', is_loop_label l = true /\ step s l = Some s'.
 Proof.
   intros s Hl.
   destruct (forallb (fun k => negb (k_in_batch k)) (e_conns s)) eqn:Hb.
-  - destruct (forallb (fun k => negb (k_stale k)) (e_conns s)) eqn:Hs.
-    + exists LBatchEnd. unfold step. rewrite Hl.
-      assert (Hc : forallb (fun k => negb (k_in_batch k) && negb (k_stale k)) (e_conns s) = true).
-      { apply forallb_forall. intros k Hin.
-        rewrite (proj1 (forallb_forall _ _) Hb k Hin), (proj1 (forallb_forall _ _) Hs k Hin). reflexivity. }
-      rewrite Hc. eexists. split; reflexivity.
-    + apply forallb_false_ex in Hs. destruct Hs as [k [Hin Hk]]. apply negb_false_iff in Hk.
-      apply In_nth_error in Hin. destruct Hin as [c Hn].
-      exists (LFree c). unfold step. rewrite Hl. unfold with_conn. rewrite Hn, Hk.
-      eexists. split; reflexivity.
+  - exists LBatchEnd. unfold step. rewrite Hl, Hb. eexists. split; reflexivity.
   - apply forallb_false_ex in Hb. destruct Hb as [k [Hin Hk]]. apply negb_false_iff in Hk.
     apply In_nth_error in Hin. destruct Hin as [c Hn].
     exists (LEvent c (outcome_of k)). unfold step. rewrite Hl. unfold with_conn. rewrite Hn, Hk. cbn [negb].
@@ -679,8 +675,9 @@ Definition mode_of (k : conn) : mode :=
   | [JRunning] => M3
   | [JDeleted] => M4
   | [JDropped] => M5
-  | _ => if k_stale k then M7
-         else if k_closed k then match k_rec k with ALive => M6 | AFreed => M8 end
+  | [JStored] => M6
+  | _ => if k_grave k then M7
+         else if k_closed k then M8
          else if k_registered k then M1 else M0
   end.
 
@@ -690,17 +687,17 @@ Proof. intros m p peer b a. destruct m; reflexivity. Qed.
 (* potential of one connection: an upper bound on the work labels it can still cause without new client input.
    Per pending request: dispatch, job start, re-arm (3).  A connection that is still reportable (pending input, peer
    closed, or an event for it already sits in the batch) can cause one more round that finds nothing to read, and the
-   close path (del, drop, closed.store, stale event, free). *)
+   close path (del, drop, closed.store, push to the graveyard, free; and a stale event when one sits in the batch). *)
 Definition mu (m : mode) (p : nat) (peer b : bool) : nat :=
   match m with
   | M0 | M8 => 0
-  | M7 => 1
-  | M6 => if b then 2 else 0
-  | M5 => if b then 3 else 1
-  | M4 => if b then 4 else 2
-  | M1 => match p with S _ => 3 * p + 7 | O => if peer then 9 else if b then 5 else 0 end
-  | M2 => match p with S _ => 3 * p + 6 | O => if peer then 8 else if b then 7 else 4 end
-  | M3 => match p with S _ => 3 * p + 8 | O => if peer then 7 else if b then 6 else 3 end
+  | M7 => if b then 2 else 1
+  | M6 => if b then 3 else 2
+  | M5 => if b then 4 else 3
+  | M4 => if b then 5 else 4
+  | M1 => match p with S _ => 3 * p + 7 | O => if peer then 9 else if b then 7 else 0 end
+  | M2 => match p with S _ => 3 * p + 6 | O => if peer then 8 else if b then 9 else 6 end
+  | M3 => match p with S _ => 3 * p + 8 | O => if peer then 7 else if b then 8 else 5 end
   end.
 
 Definition cmu (k : conn) : nat := mu (mode_of k) (k_pending k) (k_peer_closed k) (k_in_batch k).
@@ -714,7 +711,7 @@ Proof. intros m p peer b a. unfold cmu. rewrite mode_of_mk. reflexivity. Qed.
 Definition wk (l : elabel) : nat :=
   match l with
   | LEvent _ OBusy => 0
-  | LEvent _ _ | LFree _ | LJobStart _ | LRearm _ | LDel _ | LStreamDrop _ | LClosedStore _ => 1
+  | LEvent _ _ | LFree _ | LJobStart _ | LRearm _ | LDel _ | LStreamDrop _ | LClosedStore _ | LGrave _ => 1
   | LAccept _ | LClientSend _ | LClientClose _ | LWait _ | LBatchEnd => 0
   end.
 Fixpoint work (tr : list elabel) : nat := match tr with [] => 0 | l :: r => wk l + work r end.
@@ -755,7 +752,7 @@ Lemma mstep_amortized : forall l m p peer b a m' p' peer' b' a',
   wk l + mu m' p' peer' b' <= mu m p peer b + mcredit l p peer.
 Proof.
   intros l m p peer b a m' p' peer' b' a' Hm.
-  destruct l as [ok|c0|c0|batch|c0 o|c0| |c0|c0|c0|c0|c0]; cbn [mstep] in Hm; try discriminate Hm.
+  destruct l as [ok|c0|c0|batch|c0 o|c0| |c0|c0|c0|c0|c0|c0]; cbn [mstep] in Hm; try discriminate Hm.
   - destruct peer; [discriminate Hm|]. inversion Hm; subst; clear Hm.
     destruct m'; destruct b'; destruct p as [|[|q]]; cbn [wk mu mcredit]; lia.
   - inversion Hm; subst; clear Hm.
@@ -771,6 +768,8 @@ Proof.
     destruct peer'; destruct b'; destruct p' as [|[|q]]; cbn [wk mu mcredit andb Nat.eqb]; lia.
   - destruct m; try discriminate Hm. inversion Hm; subst; clear Hm.
     destruct peer'; destruct b'; destruct p' as [|[|q]]; cbn [wk mu mcredit]; lia.
+  - destruct m; try discriminate Hm. inversion Hm; subst; clear Hm.
+    destruct b'; cbn [wk mu mcredit]; lia.
   - destruct m; try discriminate Hm. inversion Hm; subst; clear Hm.
     destruct b'; cbn [wk mu mcredit]; lia.
   - destruct m; try discriminate Hm. inversion Hm; subst; clear Hm.
@@ -819,7 +818,7 @@ Lemma credit_conn : forall s l c m p peer b a, target l = Some c ->
   nth_error (e_conns s) c = Some (mk m p peer b a) -> credit s l = mcredit l p peer.
 Proof.
   intros s l c m p peer b a Ht Hn. unfold credit.
-  destruct l as [ok|c0|c0|batch|c0 o|c0| |c0|c0|c0|c0|c0]; cbn [target] in Ht; try discriminate Ht;
+  destruct l as [ok|c0|c0|batch|c0 o|c0| |c0|c0|c0|c0|c0|c0]; cbn [target] in Ht; try discriminate Ht;
     inversion Ht; subst c0; clear Ht; cbn [issend isclose eof_rearm mcredit bn]; try lia.
   rewrite Hn. cbn [mk k_peer_closed k_pending]. destruct (peer && Nat.eqb p 0); cbn [bn]; lia.
 Qed.
@@ -831,12 +830,12 @@ Proof.
   intros s l s' Hreach Hstep.
   destruct (target l) as [c0|] eqn:Ht.
   - destruct (step_conn s l c0 s' Hreach Ht Hstep)
-      as (m & p & peer & b & a & m' & p' & peer' & b' & a' & Hn & _ & _ & _ & Hm & Hs').
+      as (m & p & peer & b & a & m' & p' & peer' & b' & a' & Hn & _ & _ & Hm & Hs').
     rewrite (credit_conn s l c0 m p peer b a Ht Hn).
     pose proof (mstep_amortized _ _ _ _ _ _ _ _ _ _ _ Hm) as Ham.
     pose proof (list_sum_set_nth cmu (e_conns s) c0 _ (mk m' p' peer' b' a') Hn) as Hsum.
     rewrite !cmu_mk in Hsum. subst s'. unfold MU. cbn [e_conns]. lia.
-  - destruct l as [ok|c0|c0|batch|c0 o|c0| |c0|c0|c0|c0|c0]; try discriminate Ht; cbn [wk].
+  - destruct l as [ok|c0|c0|batch|c0 o|c0| |c0|c0|c0|c0|c0|c0]; try discriminate Ht; cbn [wk].
     + apply step_accept in Hstep. subst s'. unfold MU. cbn [e_conns].
       rewrite map_app, list_sum_app. cbn [map list_sum fold_right].
       assert (H0 : cmu (new_conn ok) = 0) by (destruct ok; reflexivity). lia.
@@ -900,7 +899,7 @@ Qed.
 
 (* the labels counted by [work], separately *)
 Definition isjob (l : elabel) : bool :=
-  match l with LJobStart _ | LRearm _ | LDel _ | LStreamDrop _ | LClosedStore _ => true | _ => false end.
+  match l with LJobStart _ | LRearm _ | LDel _ | LStreamDrop _ | LClosedStore _ | LGrave _ => true | _ => false end.
 Definition isdispatch (l : elabel) : bool := match l with LEvent _ ODispatched => true | _ => false end.
 Definition isbusy (l : elabel) : bool := match l with LEvent _ OBusy => true | _ => false end.
 
@@ -909,7 +908,7 @@ Proof.
   intros tr. induction tr as [|l r IH].
   - cbn. lia.
   - rewrite !cnt_cons. cbn [work].
-    destruct l as [ok|c0|c0|batch|c0 o|c0| |c0|c0|c0|c0|c0]; try destruct o; cbn [isjob isdispatch wk bn]; lia.
+    destruct l as [ok|c0|c0|batch|c0 o|c0| |c0|c0|c0|c0|c0|c0]; try destruct o; cbn [isjob isdispatch wk bn]; lia.
 Qed.
 
 Lemma no_client_counts : forall tr, existsb isclient tr = false -> cnt issend tr = 0 /\ cnt isclose tr = 0.
@@ -940,9 +939,10 @@ Lemma mstep_peer : forall l m p peer b a m' p' peer' b' a',
   isclient l = false -> mstep l m p peer b a = Some (m', p', peer', b', a') -> peer' = peer.
 Proof.
   intros l m p peer b a m' p' peer' b' a' Hcl Hm.
-  destruct l as [ok|c0|c0|batch|c0 o|c0| |c0|c0|c0|c0|c0]; try discriminate Hcl; cbn [mstep] in Hm;
+  destruct l as [ok|c0|c0|batch|c0 o|c0| |c0|c0|c0|c0|c0|c0]; try discriminate Hcl; cbn [mstep] in Hm;
     try discriminate Hm.
   - destruct b; [|discriminate Hm]. destruct m; destruct o; try discriminate Hm; inversion Hm; reflexivity.
+  - destruct m; try discriminate Hm; inversion Hm; reflexivity.
   - destruct m; try discriminate Hm; inversion Hm; reflexivity.
   - destruct m; try discriminate Hm; inversion Hm; reflexivity.
   - destruct m; try discriminate Hm; inversion Hm; reflexivity.
@@ -956,13 +956,13 @@ Proof.
   intros s l s' Hreach Hnpc Hcl Hstep c k' Hn'.
   destruct (target l) as [c0|] eqn:Ht.
   - destruct (step_conn s l c0 s' Hreach Ht Hstep)
-      as (m & p & peer & b & a & m' & p' & peer' & b' & a' & Hn & _ & _ & _ & Hm & Hs').
+      as (m & p & peer & b & a & m' & p' & peer' & b' & a' & Hn & _ & _ & Hm & Hs').
     subst s'. destruct (Nat.eq_dec c c0) as [Heq|Hneq].
     + subst c0. cbn [e_conns] in Hn'. rewrite (nth_error_set_nth_eq _ _ _ _ Hn) in Hn'.
       inversion Hn'; subst k'. cbn [mk k_peer_closed].
       rewrite (mstep_peer _ _ _ _ _ _ _ _ _ _ _ Hcl Hm). exact (Hnpc c _ Hn).
     + rewrite (target_other l c0 c Ht Hneq) in Hn'. exact (Hnpc c k' Hn').
-  - destruct l as [ok|c0|c0|batch|c0 o|c0| |c0|c0|c0|c0|c0]; try discriminate Ht.
+  - destruct l as [ok|c0|c0|batch|c0 o|c0| |c0|c0|c0|c0|c0|c0]; try discriminate Ht.
     + apply step_accept in Hstep. subst s'. cbn [e_conns] in Hn'. rewrite nth_error_snoc_new in Hn'.
       destruct (nth_error (e_conns s) c) as [k|] eqn:Hn.
       * inversion Hn'; subst k'. exact (Hnpc c k Hn).
@@ -1162,16 +1162,18 @@ Proof.
 Qed.
 
 (* the bound: after two requests on one connection and one on another (none peer-closed), MU = 23;
-   a client-free continuation that serves all three requests does 11 units of work *)
+   a client-free continuation that serves all three requests, closes connection 1 and reclaims its record does 13 units
+   of work *)
 Definition ex_tr4 : list elabel := [LAccept true; LAccept true; LClientSend 0; LClientSend 0; LClientSend 1].
 Definition ex_tr5 : list elabel :=
   [LWait [0; 1]; LEvent 0 ODispatched; LEvent 1 ODispatched; LBatchEnd; LJobStart 1; LJobStart 0; LRearm 0;
-   LWait [0]; LEvent 0 ODispatched; LBatchEnd; LJobStart 0; LDel 1; LStreamDrop 1; LRearm 0; LClosedStore 1].
+   LWait [0]; LEvent 0 ODispatched; LBatchEnd; LJobStart 0; LDel 1; LStreamDrop 1; LRearm 0; LClosedStore 1;
+   LGrave 1; LWait []; LFree 1; LBatchEnd].
 
 Example ex_bound_hyp :
   exists s s', run ep_init ex_tr4 = Some s /\ run s ex_tr5 = Some s' /\ existsb isclient ex_tr5 = false /\
                forallb (fun k => negb (k_peer_closed k)) (e_conns s) = true /\
-               MU s = 23 /\ work ex_tr5 = 11 /\ MU s' = 0.
+               MU s = 23 /\ work ex_tr5 = 13 /\ MU s' = 0.
 Proof. vm_compute. do 2 eexists. repeat split; reflexivity. Qed.
 
 Example ex_bound : exists s, run ep_init ex_tr4 = Some s /\ work ex_tr5 <= MU s.
